@@ -232,6 +232,27 @@ fn check(s: &Session, st: &mut Stats) -> CheckResult {
         }
         st.label("probed-module-of-failed-input");
     }
+    // when a failed input had imported something, every optional module (also the dependencies
+    // of the imported ones) must still import with the same effect in both sessions
+    if !failed_modules.is_empty() {
+        for m in EXTRA_MODULES.iter().rev() {
+            let (pa, pb) = (eval(&mut a, &format!("use {m}")), eval(&mut b, &format!("use {m}")));
+            if outcome_key(&pa) != outcome_key(&pb) {
+                return Err(Failure::new(
+                    "module-import-differs",
+                    format!("`use {m}` at the end of the session: {} vs {}; history:\n{}", pa.summary(), pb.summary(), history.join("\n---\n")),
+                ));
+            }
+        }
+        let (da, db) = (session_digest(&a), session_digest(&b));
+        if let Some(d) = diff(&da, &db) {
+            return Err(Failure::new(
+                "module-from-failed-input-not-importable",
+                format!("after importing every optional module at the end of the session: {d}; history:\n{}", history.join("\n---\n")),
+            ));
+        }
+        st.label("probed-all-optional-modules");
+    }
     if nontrivial_failure && later_success_after_failure {
         st.nontrivial_with_sample(hash_str(&history.join("\n---\n")), || json!({"inputs": history}));
     }
